@@ -236,7 +236,8 @@ func (r *run) recoverImage(root, template string, log []simos.Effect, k int, tru
 	simos.Reset(img)
 	ok := true
 	// undo files are named by height only.  Does the image hold, for a height of the SNAPSHOT's chain,
-	// undo data written by a block of another branch?  (Recovery and later reorganisations would use it.)
+	// undo data written by a block of another branch?  (Until fix 7fe5b207 recovery and later reorganisations used
+	// it - a listed finding for most of the build; now it only annotates a violation's message.)
 	staleUndo := ""
 	for _, fn := range []string{"UTXO.db", "UTXO.old"} {
 		d, err := os.ReadFile(filepath.Join(img, fn))
@@ -290,7 +291,6 @@ func (r *run) recoverImage(root, template string, log []simos.Effect, k int, tru
 		if d := diffUTXO(sub.n.Dump(), tn.UTXO()); d != "" {
 			cl := "crash.utxo-mismatch"
 			if staleUndo != "" {
-				cl = "crash.undo-file-of-other-branch"
 				desc = staleUndo + " | " + desc
 			}
 			r.viol(cl, "after reopening a crash image the tip is %s (height %d) but the unspent set is not the replay of its chain: %s. %s", hs(th), theight, d, desc)
@@ -334,7 +334,6 @@ func (r *run) recoverImage(root, template string, log []simos.Effect, k int, tru
 				if !strings.Contains(out.Violations[i].Msg, "crash image") {
 					out.Violations[i].Class = "crash.refeed." + out.Violations[i].Class
 					if staleUndo != "" {
-						out.Violations[i].Class = "crash.undo-file-of-other-branch"
 						out.Violations[i].Msg += " | " + staleUndo
 					}
 					out.Violations[i].Msg += " | " + desc
@@ -404,7 +403,6 @@ func (r *run) recoverImage(root, template string, log []simos.Effect, k int, tru
 				out.Violations[n-1].Class = "truncation.snapshot-block-not-in-index"
 			}
 			if staleUndo != "" {
-				out.Violations[n-1].Class = "crash.undo-file-of-other-branch"
 				out.Violations[n-1].Msg += " | " + staleUndo
 			}
 			out.Violations[n-1].Msg += " | " + desc
